@@ -20,7 +20,7 @@ RULE = (
 ASSUMPTIONS = ["with cbca only the scalar-nesting relation is claimed (NaN-ed neighbours legitimately change aggregated sums)"]
 GATES = {
     "nested_scalar_pairs": 10, "grid_of_equal_width_intervals": 1, "nested_with_cbca": 2, "grid_vs_hull": 5, "constant_grid_vs_scalar": 3, "point_inner_interval": 1,
-    "end_to_end_pipelines": 10, "nested_with_a_confidence_step": 3, "interval_excluding_0_with_filling": 2, "interval_excluding_0": 5, "filled_pixels_contained": 1, "costs_compared": 50000, "pixels_contained": 5000,
+    "end_to_end_pipelines": 10, "grid_on_a_scene_spanning_blocks_of_100": 2, "nested_with_a_confidence_step": 3, "interval_excluding_0_with_filling": 2, "interval_excluding_0": 5, "filled_pixels_contained": 1, "costs_compared": 50000, "pixels_contained": 5000,
 }
 INVALID = 0b1111000011
 
@@ -74,7 +74,11 @@ def run_case(case, ctx):
     subpix = int(rng.choice([1, 2, 4]))
     rows, cols = int(rng.integers(max(w, 5), 22)), int(rng.integers(max(w, 7), 30))
     nb = 1 if rng.random() < 0.85 else 3
-    cbca = nb == 1 and rng.random() < 0.35
+    tall = case["i"] == 2
+    if tall:
+        # directed constructor: per-pixel grids on a scene spanning more than one internal block of 100 rows / columns
+        rows, cols = (int(rng.integers(201, 215)), int(rng.integers(max(w, 7), 12))) if case["part"] % 2 == 0 else (int(rng.integers(max(w, 5), 10)), int(rng.integers(201, 215)))
+    cbca = nb == 1 and rng.random() < 0.35 and not tall
     l, r = gen.stereo_pair(rng, rows, cols, gen.TEXTURES[int(rng.integers(0, 5))], max_shift=3, bands=nb)
     lm = gen.mask(rng, rows, cols, gen.MASK_KINDS[int(rng.integers(0, 9))]) if rng.random() < 0.4 else None
     rm = gen.mask(rng, rows, cols, gen.MASK_KINDS[int(rng.integers(0, 9))]) if rng.random() < 0.4 else None
@@ -83,8 +87,9 @@ def run_case(case, ctx):
     a = int(rng.integers(A, B + 1))
     b = int(rng.integers(a, B + 1))
     relation = ["scalar", "scalar", "grid", "constant-grid"][int(rng.integers(0, 4))]
-    if case["i"] == 0:
+    if case["i"] == 0 or tall:
         relation, cbca = "grid", False
+    ctx.gate("grid_on_a_scene_spanning_blocks_of_100", int(tall))
     if cbca and relation == "grid":
         relation = "scalar"
     keys = ["matching_cost"] + (["aggregation"] if cbca else [])
